@@ -251,6 +251,15 @@ def table_m(facts, rep, rule_guard, rule_kind, self_ty=MEM, trait="FileSystem", 
                                 len(a) > 1 and a[1][0] == "agg" and a[1][2] == "FileNotFound" and \
                                 norm(a[0][2][1]) == norm(mm.key_arg(b)):
                             has = True
+            # ... or spelled out: `match map.get(path) { None => Err(FileNotFound), .. }`
+            if not has:
+                cbm = mm.inter.code_body(b)
+                for ct, _, rbb in mm.inter.ret_cases(b):
+                    tnm = norm(ct)
+                    kinds_m = [x[2] for x in walk(tnm) if x[0] == "agg" and x[1] == "error::VfsErrorKind"]
+                    if mm.inter.case_polarity(ct) == "err" and kinds_m == ["FileNotFound"] and \
+                            GuardView(mm.guards(cbm, rbb), mm.inter).vacant(mm.key_arg(b)):
+                        has = True
             n += 1
             rep.ob(rule_kind, b.id, "%s: missing target reported as FileNotFound" % op, has,
                    "lookup(path).ok_or(FileNotFound)" if has else "no lookup of the operation's path that maps absence to FileNotFound", b.span)
